@@ -60,8 +60,9 @@ bool LoadScenario(const js::J& j, Scenario* s, string* err) {
       st.has_rsp = !st.rspfile.empty();
       int idx = (int)v.stmts.size();
       for (auto& o : st.outs) v.producer[o] = idx;
-      if (!st.phony)
-        for (auto& o : st.spec.outs) v.producer[o] = idx;  // dyndep-provided outputs
+      if (!st.phony && !st.dyndep.empty())
+        for (auto& o : st.spec.outs) v.producer[o] = idx;  // dyndep-provided outputs (without a dyndep binding a file the
+                                                          // command also writes is nobody's output as far as the manifest says)
       v.stmts.push_back(st);
     }
     (string(vkey) == "variants" ? s->variants : s->twin_variants).push_back(v);
